@@ -23,6 +23,9 @@ semantics (same operations, same order, same exceptions); nothing is executed.  
   ITER     for n in iter(o.m, <const>): B  ->  while True: n = o.m(); if n == <const>: break; B     (o a name the body does not rebind)
   STAR     [*x] -> list(x);   CHAIN   a < b < c -> a < b and b < c (shared operands plain names / constants)
   LOCALCONST  a local bound once at the top level of a function to a literal is replaced by the literal where it is read afterwards
+  NEXT        it = iter(X); while True: try: t = next(it) / except StopIteration: break; B   ->   for t in X: B
+  INDEX       i = 0; n = len(L); while i < n: B(L[i]); i += 1   ->   for item in L: B(item)     (L a fresh local list nobody can change)
+  ROWALIAS    v = a[b] (a a local dict used only as a table, nothing rebound) followed by the reads of v  ->  the reads say a[b] again
   CLASSDEFAULT  a class-level literal default of a class with __init__ is written as `self.name = literal` at the top of __init__
   CONST    a private module-level name bound once to a literal constant is replaced by the literal inside functions (see constprop)
 
@@ -283,6 +286,12 @@ class Canon(ast.NodeTransformer):
     def visit_FunctionDef(self, node):
         if _on("LOCALCONST"):
             _local_constants(node)          # first: `x = x * factor` with a named constant factor then becomes `x *= 1.2`
+        if _on("ROWALIAS"):
+            _row_aliases(node)
+        if _on("NEXT"):
+            _next_loops(node)
+        if _on("INDEX"):
+            _index_loops(node)
         self.generic_visit(node)
         self._bodies(node)
         if _on("TAIL"):
@@ -360,6 +369,362 @@ def _class_defaults(cls):
     k = 1 if body and isinstance(body[0], ast.Expr) and isinstance(body[0].value, ast.Constant) and isinstance(body[0].value.value, str) else 0
     init.body = body[:k] + new + body[k:]
     cls.body = keep or [ast.copy_location(ast.Pass(), cls)]
+
+
+def _bind_counts(fn):
+    binds = {}
+    for n in ast.walk(fn):
+        if isinstance(n, ast.Name) and isinstance(n.ctx, (ast.Store, ast.Del)):
+            binds[n.id] = binds.get(n.id, 0) + 1
+        elif isinstance(n, (ast.Global, ast.Nonlocal)):
+            for nm in n.names:
+                binds[nm] = 99
+        elif isinstance(n, ast.arg):
+            binds[n.arg] = 99
+        elif isinstance(n, (ast.FunctionDef, ast.AsyncFunctionDef, ast.ClassDef)) and n is not fn:
+            binds[n.name] = 99
+        elif isinstance(n, ast.ExceptHandler) and n.name:
+            binds[n.name] = 99
+        elif isinstance(n, (ast.Import, ast.ImportFrom)):
+            for al in n.names:
+                binds[(al.asname or al.name).split(".")[0]] = 99
+    return binds
+
+
+def _own_binds(fn):
+    """bindings of the names of fn's own scope (nested functions, lambdas and comprehensions have their own names; a nested
+    `nonlocal` declaration makes the name untrackable)."""
+    binds = {}
+    a = fn.args
+    for x in a.posonlyargs + a.args + a.kwonlyargs + [y for y in (a.vararg, a.kwarg) if y]:
+        binds[x.arg] = 99
+
+    def walk(n, own):
+        for c in ast.iter_child_nodes(n):
+            if isinstance(c, (ast.FunctionDef, ast.AsyncFunctionDef, ast.ClassDef)):
+                if own:
+                    binds[c.name] = 99
+                walk(c, False)
+            elif isinstance(c, (ast.Lambda, ast.ListComp, ast.SetComp, ast.DictComp, ast.GeneratorExp)):
+                walk(c, False)
+            else:
+                if isinstance(c, ast.Nonlocal) or (own and isinstance(c, ast.Global)):
+                    for nm in c.names:
+                        binds[nm] = 99
+                elif own and isinstance(c, ast.Name) and isinstance(c.ctx, (ast.Store, ast.Del)):
+                    binds[c.id] = binds.get(c.id, 0) + 1
+                elif own and isinstance(c, ast.ExceptHandler) and c.name:
+                    binds[c.name] = 99
+                elif own and isinstance(c, (ast.Import, ast.ImportFrom)):
+                    for al in c.names:
+                        binds[(al.asname or al.name).split(".")[0]] = 99
+                walk(c, own)
+    walk(fn, True)
+    return binds
+
+
+def _next_loops(fn):
+    """NEXT: the for statement written by hand --
+           it = iter(X)
+           while True:
+               try: t = next(it)
+               except StopIteration: break            (or a bare `return`)
+               B
+    with `it` used nowhere else in the function, is `for t in X: B` (followed by `else: return` when the handler returns and the loop
+    is not the last statement of the function)."""
+    uses = {}
+    for n in ast.walk(fn):
+        if isinstance(n, ast.Name):
+            uses[n.id] = uses.get(n.id, 0) + 1
+
+    def blocks(node):
+        for fld in ("body", "orelse", "finalbody"):
+            v = getattr(node, fld, None)
+            if isinstance(v, list) and v and isinstance(v[0], ast.stmt):
+                yield v
+        for h in getattr(node, "handlers", []):
+            yield h.body
+
+    todo = [fn]
+    while todo:
+        node = todo.pop()
+        for blk in blocks(node):
+            i = 0
+            while i < len(blk):
+                s = blk[i]
+                if not isinstance(s, (ast.FunctionDef, ast.AsyncFunctionDef, ast.ClassDef)):
+                    todo.append(s)
+                w = blk[i + 1] if i + 1 < len(blk) else None
+                if isinstance(s, ast.Assign) and len(s.targets) == 1 and isinstance(s.targets[0], ast.Name) and uses.get(s.targets[0].id) == 2 \
+                        and isinstance(s.value, ast.Call) and isinstance(s.value.func, ast.Name) and s.value.func.id == "iter" and len(s.value.args) == 1 and not s.value.keywords \
+                        and isinstance(w, ast.While) and isinstance(w.test, ast.Constant) and w.test.value is True and not w.orelse and len(w.body) >= 1 \
+                        and isinstance(w.body[0], ast.Try):
+                    it, tr = s.targets[0].id, w.body[0]
+                    if len(tr.body) == 1 and isinstance(tr.body[0], ast.Assign) and len(tr.body[0].targets) == 1 and isinstance(tr.body[0].targets[0], (ast.Name, ast.Tuple)) \
+                            and isinstance(tr.body[0].value, ast.Call) and isinstance(tr.body[0].value.func, ast.Name) and tr.body[0].value.func.id == "next" \
+                            and len(tr.body[0].value.args) == 1 and isinstance(tr.body[0].value.args[0], ast.Name) and tr.body[0].value.args[0].id == it \
+                            and not tr.body[0].value.keywords and not tr.orelse and not tr.finalbody and len(tr.handlers) == 1 \
+                            and isinstance(tr.handlers[0].type, ast.Name) and tr.handlers[0].type.id == "StopIteration" and tr.handlers[0].name is None \
+                            and len(tr.handlers[0].body) == 1 and (isinstance(tr.handlers[0].body[0], ast.Break) or (
+                                isinstance(tr.handlers[0].body[0], ast.Return) and tr.handlers[0].body[0].value is None)):
+                        _hit("NEXT")
+                        j = tr.handlers[0].body[0]
+                        last = node is fn and blk is fn.body and i + 2 == len(blk)
+                        orelse = [j] if isinstance(j, ast.Return) and not last else []
+                        new = ast.For(target=tr.body[0].targets[0], iter=s.value.args[0], body=w.body[1:] or [ast.copy_location(ast.Pass(), w)], orelse=orelse)
+                        blk[i:i + 2] = [ast.copy_location(new, w)]
+                        todo.append(blk[i])
+                i += 1
+
+
+def _index_loops(fn):
+    """INDEX: the for statement written with an index --
+           i = 0 [; n = len(L)]
+           while i < n:            (or  i < len(L))
+               B                   (reads `i` only as L[i]; no `continue` of this loop; rebinds none of i, n, L)
+               i += 1
+    where L is a local bound once to a fresh list (list(...), a display or a comprehension) that the function only indexes, measures,
+    iterates, formats or tests (so nothing can change it during the loop), and `i` is not read after the loop, is
+    `for item in L: B[L[i] := item]`."""
+    binds = _own_binds(fn)
+    par = {}
+    for n in ast.walk(fn):
+        for c in ast.iter_child_nodes(n):
+            par[id(c)] = n
+    occ = {}
+    for n in ast.walk(fn):
+        if isinstance(n, ast.Name):
+            occ.setdefault(n.id, []).append(n)
+
+    def fresh_list(L):
+        defs = [n for n in ast.walk(fn) if isinstance(n, ast.Assign) and len(n.targets) == 1 and isinstance(n.targets[0], ast.Name) and n.targets[0].id == L]
+        if binds.get(L) != 1 or len(defs) != 1:
+            return False
+        v = defs[0].value
+        if not (isinstance(v, (ast.List, ast.ListComp)) or (isinstance(v, ast.Call) and isinstance(v.func, ast.Name) and v.func.id in ("list", "sorted"))):
+            return False
+        for n in occ.get(L, []):
+            if not isinstance(n.ctx, ast.Load):
+                continue
+            p = par.get(id(n))
+            if isinstance(p, ast.Subscript) and p.value is n and isinstance(p.ctx, ast.Load):
+                continue
+            if isinstance(p, ast.Call) and isinstance(p.func, ast.Name) and p.func.id == "len" and p.args == [n]:
+                continue
+            if isinstance(p, (ast.For, ast.comprehension)) and p.iter is n:
+                continue
+            if isinstance(p, ast.FormattedValue) or (isinstance(p, (ast.If, ast.While)) and p.test is n) or (isinstance(p, ast.UnaryOp) and isinstance(p.op, ast.Not)):
+                continue
+            return False
+        return True
+
+    def is_len_of(x, L=None):
+        return isinstance(x, ast.Call) and isinstance(x.func, ast.Name) and x.func.id == "len" and len(x.args) == 1 and isinstance(x.args[0], ast.Name) \
+            and (L is None or x.args[0].id == L) and not x.keywords
+
+    def blocks(node):
+        for fld in ("body", "orelse", "finalbody"):
+            v = getattr(node, fld, None)
+            if isinstance(v, list) and v and isinstance(v[0], ast.stmt):
+                yield v
+        for h in getattr(node, "handlers", []):
+            yield h.body
+
+    def inside(n, roots):
+        ids = {id(x) for r in roots for x in ast.walk(r)}
+        return id(n) in ids
+
+    todo = [fn]
+    while todo:
+        node = todo.pop()
+        for blk in blocks(node):
+            k = 0
+            while k < len(blk):
+                w = blk[k]
+                if not isinstance(w, (ast.FunctionDef, ast.AsyncFunctionDef, ast.ClassDef)):
+                    todo.append(w)
+                k += 1
+                if not (isinstance(w, ast.While) and not w.orelse and isinstance(w.test, ast.Compare) and len(w.test.ops) == 1 and isinstance(w.test.ops[0], ast.Lt)
+                        and isinstance(w.test.left, ast.Name) and len(w.body) >= 2):
+                    continue
+                i = w.test.left.id
+                bound = w.test.comparators[0]
+                last = w.body[-1]
+                step = (isinstance(last, ast.AugAssign) and isinstance(last.target, ast.Name) and last.target.id == i and isinstance(last.op, ast.Add)
+                        and isinstance(last.value, ast.Constant) and last.value.value == 1) or \
+                       (isinstance(last, ast.Assign) and len(last.targets) == 1 and isinstance(last.targets[0], ast.Name) and last.targets[0].id == i
+                        and isinstance(last.value, ast.BinOp) and isinstance(last.value.op, ast.Add) and isinstance(last.value.left, ast.Name) and last.value.left.id == i
+                        and isinstance(last.value.right, ast.Constant) and last.value.right.value == 1)
+                if not step or binds.get(i, 0) >= 99:
+                    continue
+                # the statements right before the loop: `i = 0` and, when the bound is a name, `n = len(L)`
+                pre = blk[max(0, k - 3):k - 1]
+                init = [s for s in pre if isinstance(s, ast.Assign) and len(s.targets) == 1 and isinstance(s.targets[0], ast.Name) and s.targets[0].id == i
+                        and isinstance(s.value, ast.Constant) and s.value.value == 0 and not isinstance(s.value.value, bool)]
+                if len(init) != 1:
+                    continue
+                nstmt = None
+                if isinstance(bound, ast.Name):
+                    cand = [s for s in pre if isinstance(s, ast.Assign) and len(s.targets) == 1 and isinstance(s.targets[0], ast.Name) and s.targets[0].id == bound.id and is_len_of(s.value)]
+                    if len(cand) != 1 or binds.get(bound.id) != 1:
+                        continue
+                    nstmt = cand[0]
+                    L = nstmt.value.args[0].id
+                elif is_len_of(bound):
+                    L = bound.args[0].id
+                else:
+                    continue
+                used = [init[0]] + ([nstmt] if nstmt else [])
+                if blk[k - 1 - len(used):k - 1] != used and blk[k - 1 - len(used):k - 1] != used[::-1]:
+                    continue
+                if not fresh_list(L) or len({i, L} | ({bound.id} if nstmt else set())) != (3 if nstmt else 2):
+                    continue
+                body = w.body[:-1]
+                body_nodes = [n for s in body for n in ast.walk(s)]
+                if any(isinstance(n, ast.Continue) for s in body for n in _walk_same_loop(s)):
+                    continue
+                if any(isinstance(n, ast.Name) and n.id in (i, L, bound.id if nstmt else i) and isinstance(n.ctx, (ast.Store, ast.Del)) for n in body_nodes):
+                    continue
+                iloads = [n for n in body_nodes if isinstance(n, ast.Name) and n.id == i]
+                if not all(isinstance(par.get(id(n)), ast.Subscript) and par[id(n)].slice is n and isinstance(par[id(n)].value, ast.Name)
+                           and par[id(n)].value.id == L and isinstance(par[id(n)].ctx, ast.Load) for n in iloads):
+                    continue
+                # i (and n) are not read outside the loop and its initialisation
+                region = used + [w]
+                if any(not inside(n, region) for n in occ.get(i, [])) or (nstmt and any(not inside(n, region) for n in occ.get(bound.id, []))):
+                    continue
+                if any(isinstance(x, (ast.FunctionDef, ast.AsyncFunctionDef, ast.Lambda, ast.GeneratorExp)) for x in body_nodes):
+                    continue
+                _hit("INDEX")
+                item = f"_{L}_item"
+                subs = {id(par[id(n)]) for n in iloads}
+
+                class _Sub(ast.NodeTransformer):
+                    def visit_Subscript(self, n):
+                        if id(n) in subs:
+                            return ast.copy_location(ast.Name(id=item, ctx=ast.Load()), n)
+                        return self.generic_visit(n)
+                sub = _Sub()
+                body = [sub.visit(s) for s in body]
+                target = ast.Name(id=item, ctx=ast.Store())
+                f0 = body[0] if body else None
+                if isinstance(f0, ast.Assign) and len(f0.targets) == 1 and isinstance(f0.targets[0], (ast.Name, ast.Tuple)) and isinstance(f0.value, ast.Name) \
+                        and f0.value.id == item and sum(1 for s in body for n in ast.walk(s) if isinstance(n, ast.Name) and n.id == item) == 1:
+                    target, body = f0.targets[0], body[1:]
+                new = ast.For(target=target, iter=ast.Name(id=L, ctx=ast.Load()), body=body or [ast.copy_location(ast.Pass(), w)], orelse=[])
+                ast.copy_location(new, w)
+                ast.fix_missing_locations(new)
+                start = k - 1 - len(used)
+                keep_n = [nstmt] if nstmt and any(isinstance(n, ast.Name) and n.id == bound.id for n in body_nodes) else []
+                blk[start:k] = keep_n + [new]
+                k = start + len(keep_n) + 1
+                for n in ast.walk(fn):
+                    for c in ast.iter_child_nodes(n):
+                        par[id(c)] = n
+
+
+_DICT_MAKERS = ("dict", "defaultdict", "OrderedDict")
+_DICT_READS = ("items", "keys", "values", "get")
+
+
+def _row_aliases(fn):
+    """ROWALIAS: `v = a[b]` followed, in the same block, by all the reads of `v`, where
+      - `a` is a local bound once to a dict display / dict comprehension / dict(...) / defaultdict(...) (so `a[b]` is the builtin lookup),
+        and everywhere in the function `a` is only subscripted, measured with len(), tested with `in`, iterated, or read through
+        .items()/.keys()/.values()/.get() (it has no alias and no statement of the rest of the block stores or deletes `a[...]`),
+      - `b` is a plain name, and neither `a`, `b` nor `v` is rebound in the rest of the block (nor `v` anywhere else),
+      - `v` is not read in a nested scope,
+    names the same object as `a[b]` at every read: the reads are written `a[b]` again (the binding statement stays as the bare lookup
+    `a[b]`, which keeps a KeyError where it was).  Hoisting a repeated lookup into a local is a common clean-up."""
+    binds = _own_binds(fn)
+    par = {}
+    for n in ast.walk(fn):
+        for c in ast.iter_child_nodes(n):
+            par[id(c)] = n
+    dicts = set()
+    for n in ast.walk(fn):
+        if isinstance(n, ast.Assign) and len(n.targets) == 1 and isinstance(n.targets[0], ast.Name) and binds.get(n.targets[0].id) == 1:
+            v = n.value
+            if isinstance(v, (ast.Dict, ast.DictComp)) or (isinstance(v, ast.Call) and (
+                    (isinstance(v.func, ast.Name) and v.func.id in _DICT_MAKERS) or (isinstance(v.func, ast.Attribute) and v.func.attr in _DICT_MAKERS))):
+                dicts.add(n.targets[0].id)
+
+    def only_read_as_table(a):
+        for n in ast.walk(fn):
+            if isinstance(n, ast.Name) and n.id == a and isinstance(n.ctx, ast.Load):
+                p = par.get(id(n))
+                if isinstance(p, ast.Subscript) and p.value is n:
+                    continue
+                if isinstance(p, ast.Compare) and n in p.comparators and isinstance(p.ops[p.comparators.index(n)], (ast.In, ast.NotIn)):
+                    continue
+                if isinstance(p, ast.Call) and isinstance(p.func, ast.Name) and p.func.id == "len" and p.args == [n]:
+                    continue
+                if isinstance(p, ast.Attribute) and p.attr in _DICT_READS and isinstance(par.get(id(p)), ast.Call) and par[id(p)].func is p:
+                    continue
+                if isinstance(p, (ast.For, ast.comprehension)) and p.iter is n:
+                    continue
+                return False
+        return True
+
+    def in_nested_scope(n):
+        p = par.get(id(n))
+        while p is not None and p is not fn:
+            if isinstance(p, (ast.FunctionDef, ast.AsyncFunctionDef, ast.Lambda, ast.ClassDef, ast.GeneratorExp)):
+                return True
+            p = par.get(id(p))
+        return False
+
+    def blocks(node):
+        for fld in ("body", "orelse", "finalbody"):
+            v = getattr(node, fld, None)
+            if isinstance(v, list) and v and isinstance(v[0], ast.stmt):
+                yield v
+        for h in getattr(node, "handlers", []):
+            yield h.body
+
+    todo = [fn]
+    while todo:
+        node = todo.pop()
+        for blk in blocks(node):
+            for i, s in enumerate(blk):
+                if not isinstance(s, (ast.FunctionDef, ast.AsyncFunctionDef, ast.ClassDef)):
+                    todo.append(s)
+                if not (isinstance(s, ast.Assign) and len(s.targets) == 1 and isinstance(s.targets[0], ast.Name) and binds.get(s.targets[0].id, 0) < 99
+                        and isinstance(s.value, ast.Subscript) and isinstance(s.value.value, ast.Name) and s.value.value.id in dicts
+                        and isinstance(s.value.slice, ast.Name)):
+                    continue
+                v, a, b = s.targets[0].id, s.value.value.id, s.value.slice.id
+                if len({v, a, b}) != 3 or not only_read_as_table(a):
+                    continue
+                rest = blk[i + 1:]
+                rest_nodes = [n for r in rest for n in ast.walk(r)]
+                # a block is entered at its first statement only: whatever runs in `rest` ran this binding after any other binding of
+                # `v` elsewhere in the function, so the reads in `rest` see it unless `rest` itself rebinds `v`
+                loads = [n for n in rest_nodes if isinstance(n, ast.Name) and n.id == v and isinstance(n.ctx, ast.Load) and not in_nested_scope(n)]
+                if not loads:
+                    continue
+                if any(isinstance(n, ast.Name) and n.id in (a, b, v) and isinstance(n.ctx, (ast.Store, ast.Del)) for n in rest_nodes):
+                    continue
+                # the binding itself can go when no other read of `v` (after the block, in a closure) may still see it
+                other = [n for n in ast.walk(fn) if isinstance(n, ast.Name) and n.id == v and isinstance(n.ctx, ast.Load) and not any(n is l for l in loads)]
+                if any(isinstance(n, ast.Subscript) and isinstance(n.ctx, (ast.Store, ast.Del)) and isinstance(n.value, ast.Name) and n.value.id == a for n in rest_nodes):
+                    continue
+                _hit("ROWALIAS")
+                row = s.value
+
+                class _Sub(ast.NodeTransformer):
+                    def visit_Name(self, n):
+                        if n.id == v and isinstance(n.ctx, ast.Load):
+                            return ast.copy_location(copy.deepcopy(row), n)
+                        return n
+                sub = _Sub()
+                for j in range(i + 1, len(blk)):
+                    blk[j] = sub.visit(blk[j])
+                if not other:
+                    blk[i] = ast.copy_location(ast.Expr(value=row), s)
+                for n in ast.walk(fn):          # parents of the rewritten part
+                    for c in ast.iter_child_nodes(n):
+                        par[id(c)] = n
 
 
 def _local_constants(fn):
